@@ -53,6 +53,7 @@ type Plan struct {
 	WorkdirRoot bool        `json:"workdir_root,omitempty"`
 	UniqueNames bool        `json:"unique_names,omitempty"`
 	SetupFail   int         `json:"setup_fail"`          // index of a script whose Setup fails, -1 none
+	Missing     int         `json:"missing,omitempty"`   // 1+index of a script whose file has vanished by the time its turn comes (0: none)
 	HostRace    bool        `json:"host_race,omitempty"` // the host environment has GORACE set
 	Verbose     bool        `json:"verbose,omitempty"`
 	Parallel    int         `json:"parallel,omitempty"`
@@ -61,7 +62,7 @@ type Plan struct {
 }
 
 var kinds = []string{"mkdir", "cp", "mv", "rm", "cd", "cdback", "env", "envexpand", "exists", "notexists", "execfg", "execenv", "execpwd", "execbg", "execbgshort", "wait",
-	"toolguard", "notoolguard", "stop", "skip", "fail", "negfail", "probe", "probe", "defer", "defer", "writecanary", "deferfail", "execbgsave", "worktool"}
+	"toolguard", "notoolguard", "stop", "skip", "fail", "negfail", "probe", "probe", "defer", "defer", "writecanary", "deferfail", "execbgsave", "worktool", "execbgchild"}
 
 func genPlan(t *rapid.T, tier string) any {
 	p := &Plan{SetupFail: -1}
@@ -86,6 +87,9 @@ func genPlan(t *rapid.T, tier string) any {
 	}
 	if rapid.IntRange(0, 5).Draw(t, "setupfail") == 0 {
 		p.SetupFail = rapid.IntRange(0, n-1).Draw(t, "setupfailidx")
+	}
+	if rapid.IntRange(0, 7).Draw(t, "missing") == 0 {
+		p.Missing = 1 + rapid.IntRange(0, n-1).Draw(t, "missingidx")
 	}
 	if rapid.IntRange(0, 2).Draw(t, "owndirs") == 0 {
 		p.OwnDirs = true
@@ -147,6 +151,9 @@ func scriptText(i int, s Script, tool string) string {
 			foreverBg = true
 		case "deferfail":
 			fmt.Fprintf(&b, "deferfail %d\n", l.Arg)
+		case "execbgchild":
+			// a background program that exits soon but leaves a descendant holding its output for a while
+			fmt.Fprintf(&b, "exec stub bg=true run=%dus out=bgc%d hold=%dus &\n", (4+l.Arg)*1000+us, i, (150+l.Arg*100)*1000+us)
 		case "execbgshort":
 			fmt.Fprintf(&b, "exec stub bg=true run=%dus out=bg%d &\n", (5+l.Arg*10)*1000+us, i)
 		case "wait":
@@ -260,7 +267,9 @@ func execute(t *testing.T, p *Plan, dir, tag string, idx []int, tool string, kee
 			os.MkdirAll(filepath.Join(sdir, fmt.Sprintf("d%d", i)), 0o777)
 			f = filepath.Join(sdir, fmt.Sprintf("d%d", i), baseNames[p.Scripts[i].Base])
 		}
-		os.WriteFile(f, []byte(scriptText(i, p.Scripts[i], tool)), 0o666)
+		if p.Missing != i+1 {
+			os.WriteFile(f, []byte(scriptText(i, p.Scripts[i], tool)), 0o666)
+		}
 		files = append(files, f)
 		byFile[f] = i
 	}
@@ -515,6 +524,9 @@ func run(t *testing.T, plan any, keep bool) *simcheck.Outcome {
 					sub = ph.subs[k]
 				}
 			}
+			if pr.DescendantAlive(ph.end) {
+				out.Violate("child-left-behind", "%s script %s: a descendant of process %v (it inherited the output pipes) is still alive after all subtests ended", label, name, pr.Args[1:])
+			}
 			if !pr.Exited {
 				out.Violate("child-left-behind", "%s script %s: process %v is still alive after all subtests ended", label, name, pr.Args[1:])
 			} else if sub != nil && pr.ExitAt > sub.EndAt {
@@ -542,9 +554,18 @@ func run(t *testing.T, plan any, keep bool) *simcheck.Outcome {
 		// (4) directories
 		ents, _ := os.ReadDir(ph.gotmp)
 		wents, _ := os.ReadDir(ph.wroot)
+		// a script whose file cannot be read may or may not have been given a work directory
+		retainedOK := func(n int) bool {
+			for _, i := range idx {
+				if p.Missing == i+1 && n == len(idx)-1 {
+					return true
+				}
+			}
+			return n == len(idx)
+		}
 		switch {
 		case p.WorkdirRoot:
-			if len(wents) != len(idx) {
+			if !retainedOK(len(wents)) {
 				out.Violate("retention", "%s: WorkdirRoot requested, %d work directories remain for %d scripts", label, len(wents), len(idx))
 			}
 			if len(ents) != 0 {
@@ -556,7 +577,7 @@ func run(t *testing.T, plan any, keep bool) *simcheck.Outcome {
 				sub, _ := os.ReadDir(filepath.Join(ph.gotmp, e.Name()))
 				n += len(sub)
 			}
-			if n != len(idx) {
+			if !retainedOK(n) {
 				out.Violate("retention", "%s: TestWork requested, %d work directories remain for %d scripts", label, n, len(idx))
 			}
 		default:
@@ -665,9 +686,9 @@ func run(t *testing.T, plan any, keep bool) *simcheck.Outcome {
 var harness = &simcheck.Harness{
 	Property: "C04",
 	Level:    "exploration",
-	Rule: "rapid draws a batch of 2-4 scripts of 2-9 lines each over the same relative names (mkdir cp mv rm cd env exists, foreground / background stub processes that create files and print their environment and cwd, wait, " +
+	Rule: "rapid draws a batch of 2-4 scripts of 2-9 lines each over the same relative names (mkdir cp mv rm cd env exists, foreground / background stub processes that create files and print their environment and cwd, background programs that exit but leave a descendant holding their output pipes for 150-450 ms, wait, " +
 		"[exec:tool] guards with per-script PATHs (a shared tool directory that only some scripts have on PATH; a $WORK/bin that every script puts on PATH and only some install the program into), stop, skip, failing and negated lines, probe and defer custom commands), retention options (TestWork / WorkdirRoot), RequireUniqueNames with a duplicate entry, " +
-		"a failing Setup, host GORACE, verbosity, a -parallel limit and a schedule; the batch runs once, then every script runs alone; non-trivial = more context switches than scripts+2; distinct by decision-trace hash",
+		"a failing Setup, a script file that has vanished, host GORACE, verbosity, a -parallel limit and a schedule; the batch runs once, then every script runs alone; non-trivial = more context switches than scripts+2; distinct by decision-trace hash",
 	Gen:     genPlan,
 	NewPlan: func() any { return &Plan{} },
 	Run:     run,
